@@ -78,7 +78,7 @@ def extra(r):
 
 
 def run(v, tier, seed, replay):
-    seqcheck.run(v, tier, seed, replay, "C06", ["C06"], tree_oracles=["no_panic", "attachments", "tree"], knobs=knobs,
+    seqcheck.run(v, tier, seed, replay, "C06", ["C06"], tree_oracles=["no_panic", "attachments", "tree", "closures"], knobs=knobs,
                  n_quick=(2100, 300), n_thorough=(80000, 5000), known=known, extra_cases=extra,
                  nontrivial=lambda lines, tr: any(r["props"] or r["events"] for _, r in tr.delivered()),
                  assumptions=["order of attachments is compared per record as a multiset; per-route order is a model theorem (C06_park_order, C06_mount_exact)",
